@@ -139,6 +139,7 @@ T_C_UNPACK = "compress_float_factor_unpackable"  # decimals >= 20: factor 10**d 
 T_C_HANG = "compress_float_nonterminating"     # decimals needed > what np.round can do (10**d overflows)
 T_C_EMPTY = "compress_empty_array"
 T_MASKVAL = "masked_value_truncated"             # as_array(str, masked_value=longer than the stored strings)
+T_C_EDGE32 = "compress_float32_product_rounds_to_2p31"   # S87: float32 max|x|*10^d within 64 of 2^31: guard in float64, encoder in float32
 T_C_PACK32 = "compress_packs_value_outside_int32"   # long column with a value >= 2**31: the size heuristic admits integer packing
 T_BE = "bigendian_64bit_or_float16_input"      # TypeCode.from_dtype compares dtype == np.int64 byte-order sensitively
 
@@ -1257,7 +1258,27 @@ _TOLS = [1e-1, 1e-2, 1e-3, 1e-4, 1e-5, 1e-6, 1e-6, 1e-7, 1e-8, 1e-9, None]
 
 def gen_compress_floats(rng, ctx, D, n, tol):
     """Float array for compress(); trigger classes that are quarantined are replaced by clean arrays."""
-    style = pick(rng, ["coords", "coords", "occupancy", "bfactor", "generic", "generic", "tiny", "specials", "one_sided"])
+    style = pick(rng, ["coords", "coords", "occupancy", "bfactor", "generic", "generic", "tiny", "specials", "one_sided", "int32_edge", "int32_edge"])
+    if style == "int32_edge":
+        # max|x| * 10^decimals within a few ulps (of the array's own dtype) of 2^31, from both sides, in long runs so that
+        # the fixed-point chain is the smaller one: the overflow guard of compress() and the arithmetic of the encoder
+        # (which multiplies in the dtype of the array) have to agree on which side of int32 the value falls
+        if rng.random() < 0.6:
+            D = "float32"     # the narrower type has the wider gap between 'fits' and 'rounds up to 2^31'
+        d = int(pick(rng, [1, 2, 3, 4, 5, 6, 7] if D == "float32" else [1, 2, 3, 4, 5, 6, 7, 8, 9]))
+        T = np.dtype(D).type
+        big = T(2.0**31 / 10.0**d)
+        k = int(pick(rng, [0, 0, 0, 0, -1, -1, -2, -3, -6, 1, 2, 3]))
+        for _ in range(abs(k)):
+            big = np.nextafter(big, T(np.inf if k > 0 else 0))
+        sign = float(pick(rng, [-1, 1, 1]))
+        m = max(n, 64)
+        cut = int(rng.integers(m // 4, 3 * m // 4))
+        v = np.empty(m, dtype=np.float64)
+        v[:cut] = sign * float(big)
+        v[cut:] = 15 * 10.0 ** -d          # needs exactly d decimals
+        ctx.op("compress_int32_edge_%s" % D)
+        return v.astype(D)
     if style == "one_sided":
         # the element of largest magnitude has a definite sign (also negative) and the others need many decimals
         big = float(pick(rng, [2.5e3, 2.5e4, 2.5e5, 2.5e6, 2.1e7])) * float(pick(rng, [-1, -1, 1]))
@@ -2147,7 +2168,17 @@ def _probe_bigendian(ctx):
                 _single(ctx, spec, x, True, "int")
 
 
+def _probe_compress_float32_edge(ctx):
+    """S87: float32 values whose fixed-point image lies in (2^31 - 64, 2^31 - 1]: the float64 product passes an int32 check, the
+    float32 product of the encoder rounds up to 2^31 and wraps to INT32_MIN (the value came back with the opposite sign)."""
+    arrays = []
+    for big, small in ((2147.4836, 0.000015), (21474.836, 0.00015), (214748.36, 0.0015), (2.1474836e7, 0.15), (-2147.4836, 0.000015)):
+        arrays.append(np.array([big] * 40 + [small] * 24, dtype=np.float32))
+    _compress_probe(ctx, arrays, [1e-6], T_C_OVER, False)
+
+
 PROBES = {
+    T_C_EDGE32: _probe_compress_float32_edge,
     T_BE: _probe_bigendian,
     T_FP: _probe_fixedpoint,
     T_PACK: _probe_packing,
